@@ -391,6 +391,8 @@ Proof.
     inv_ok H. split; [apply SK_until; auto|cbn; rewrite Q4, Q3, Q2, Q0'; reflexivity].
   - intros k body IH Hw. discriminate.
   - intro Hw. discriminate.
+  - intros a b n o m Hw. discriminate.
+  - intros q ip a b n Hw. discriminate.
   - intros _ st c st' cap H I Hb. inv_ok H. split; [apply SK_nil|reflexivity].
   - intros s IHs b IHb Hw st c st' cap H I Hb. cbn [bwfs] in Hw. apply andb_prop in Hw. destruct Hw as [Hw1 Hw2].
     destruct (proj1 wfs_plain s Hw1) as [Hp1 He1].
